@@ -18,8 +18,13 @@ their default.  Classes that cannot be instantiated are never dropped silently: 
 
 Kinds
 -----
-``scalar``  real scalar: symbol | rational | float | small arithmetic | nested scalar class
-``nonnum``  scalar that is not a bare number (``ComplexSqrt(number)`` evaluates at once)
+``scalar``  real scalar: symbol | rational | float | small arithmetic | nested *real-valued* class
+``cscalar`` complex scalar: anything of kind ``scalar`` or a nested complex-valued class
+            (``PhaseSpaceFactor`` below threshold, ``ComplexSqrt``, ...). Only the polynomial /
+            rational classes (``Kallen``, ``Kibble``, ``BreakupMomentumSquared``) take ``cscalar``
+            arguments: every other class orders its arguments (``x < 0``) or takes roots and
+            logarithms of them, which is only defined for real input.
+``nonnum``  real scalar that is not a bare number (``ComplexSqrt(number)`` evaluates at once)
 ``L``       angular momentum: integer 0..4 | integer symbol
 ``p4``      four-momentum array of shape (n, 4): ``ArraySymbol(name, shape=[])`` (this is
             what ``ampform.kinematics.lorentz.FourMomentumSymbol`` is), ``ArraySum``,
@@ -195,6 +200,9 @@ class Recipe:
 
 _P4 = {"momentum": "p4"}
 _SMM = {"s": "scalar", "m1": "scalar", "m2": "scalar"}
+_CSMM = {"s": "cscalar", "m1": "cscalar", "m2": "cscalar"}
+# polynomial / rational classes: complex arguments are fine; real arguments give a real value
+POLYNOMIAL = {"Kallen", "Kibble", "BreakupMomentumSquared"}
 _ROT_IMPL = {"angle": "ev", "cos_angle": "ev", "sin_angle": "ev", "ones": "ones", "zeros": "zeros"}
 
 # dataclass (@unevaluated) classes: field -> kind, return kind
@@ -228,29 +236,29 @@ FIELD_RECIPES: dict[str, tuple[dict, str]] = {
     "ArraySize": ({"array": "arrsym"}, "n"),
     "Phi": (_P4, "ev"),
     "Theta": (_P4, "ev"),
-    "Kallen": ({"x": "scalar", "y": "scalar", "z": "scalar"}, "scalar"),
-    "Kibble": ({k: "scalar" for k in ("sigma1", "sigma2", "sigma3", "m0", "m1", "m2", "m3")}, "scalar"),
-    "BreakupMomentumSquared": (_SMM, "scalar"),
-    "PhaseSpaceFactor": (_SMM, "scalar"),
+    "Kallen": ({"x": "cscalar", "y": "cscalar", "z": "cscalar"}, "cscalar"),
+    "Kibble": ({k: "cscalar" for k in ("sigma1", "sigma2", "sigma3", "m0", "m1", "m2", "m3")}, "cscalar"),
+    "BreakupMomentumSquared": (_CSMM, "cscalar"),
+    "PhaseSpaceFactor": (_SMM, "cscalar"),
     "PhaseSpaceFactorAbs": (_SMM, "scalar"),
-    "PhaseSpaceFactorComplex": (_SMM, "scalar"),
-    "PhaseSpaceFactorSWave": (_SMM, "scalar"),
-    "EqualMassPhaseSpaceFactor": (_SMM, "scalar"),
-    "FormFactor": ({**_SMM, "angular_momentum": "L", "meson_radius": "scalar"}, "scalar"),
+    "PhaseSpaceFactorComplex": (_SMM, "cscalar"),
+    "PhaseSpaceFactorSWave": (_SMM, "cscalar"),
+    "EqualMassPhaseSpaceFactor": (_SMM, "cscalar"),
+    "FormFactor": ({**_SMM, "angular_momentum": "L", "meson_radius": "scalar"}, "cscalar"),
     "BlattWeisskopfSquared": ({"z": "scalar", "angular_momentum": "L"}, "scalar"),
-    "SphericalHankel1": ({"l": "L", "z": "scalar"}, "scalar"),
+    "SphericalHankel1": ({"l": "L", "z": "scalar"}, "cscalar"),
     "EnergyDependentWidth": (
         {
             "s": "scalar", "mass0": "scalar", "gamma0": "scalar", "m_a": "scalar", "m_b": "scalar",
             "angular_momentum": "L", "meson_radius": "scalar",
         },
-        "scalar",
+        "cscalar",
     ),
 }
 
 # helper classes that are not dataclasses: variants of (argument kinds, extra, return kind)
 CUSTOM_RECIPES: dict[str, tuple] = {
-    "ComplexSqrt": ((("nonnum",), {}, "scalar"),),
+    "ComplexSqrt": ((("nonnum",), {}, "cscalar"),),
     "PoolSum": (
         (("poolbody1",), {"indices": "pool1"}, "scalar"),
         (("poolbody2",), {"indices": "pool2"}, "scalar"),
@@ -321,10 +329,15 @@ def signature_key(name: str):
     rec = recipes()[name]
     if rec.source == "custom":
         return None
-    return (rec.kinds, rec.returns, rec.nonsympy)
+    kinds = tuple("scalar" if k == "cscalar" else k for k in rec.kinds)
+    returns = "scalar" if rec.returns == "cscalar" else rec.returns
+    return (kinds, returns, rec.nonsympy)
 
 
 # --------------------------------------------------------------------------- building
+_DUMMIES: dict[str, Any] = {}
+
+
 def _symbol(name: str):
     import sympy as sp  # noqa: PLC0415
 
@@ -341,7 +354,11 @@ def _index(name: str):
     import sympy as sp  # noqa: PLC0415
 
     if name == "k":
-        return sp.Symbol(name, integer=True, nonnegative=True)
+        # summation variable of _SymbolicSum: the library uses a Dummy (its doit() treats every
+        # non-Dummy symbol of the limits, the variable included, as "symbolic limit")
+        if name not in _DUMMIES:
+            _DUMMIES[name] = sp.Dummy(name, integer=True, nonnegative=True)
+        return _DUMMIES[name]
     if name == "t":
         # integration variable: real (sympy's Abs/conjugate rewrite a complex bound symbol of an
         # Integral to re(t) + I*im(t), which is not a legal integration limit)
@@ -702,7 +719,7 @@ def of_kind(kind: str, depth: int, leaf_weight: int = 2):
         leaf = st.one_of(*leaf_strategies)
         return st.one_of(*([leaf] * leaf_weight), nested)
 
-    if kind == "scalar":
+    if kind in {"scalar", "cscalar"}:
         return mix(sym, st.one_of(num, arith))
     if kind == "nonnum":
         return mix(sym, arith)
@@ -763,6 +780,16 @@ def of_kind(kind: str, depth: int, leaf_weight: int = 2):
             )
         if kind == "sumbody":
             return st.tuples(sym, inner).map(lambda t: ["mul", ["add", ["idx", idx], t[0]], t[1]])
+        if kind == "intbody":
+            return st.one_of(
+                st.tuples(inner, st.one_of(sym, num)).map(
+                    lambda t: ["add", ["mul", ["idx", "t"], t[0]], ["mul", t[1], ["pow", ["idx", "t"], 2]]]
+                ),
+                # the integration variable occurs in a repeated sub-expression (what cse looks for)
+                st.tuples(inner, num).map(
+                    lambda t: ["div", ["add", ["pow", ["idx", "t"], 2], t[0]], ["add", ["pow", ["idx", "t"], 2], t[1]]]
+                ),
+            )
         return st.tuples(inner, st.one_of(sym, num)).map(
             lambda t: ["add", ["mul", ["idx", idx], t[0]], ["mul", t[1], ["pow", ["idx", idx], 2]]]
         )
@@ -776,7 +803,8 @@ def of_kind(kind: str, depth: int, leaf_weight: int = 2):
 
 def _pool():
     st = _st()
-    return st.lists(st.sampled_from(["0", "1", "-1", "2", "1/2", "-1/2"]), min_size=1, max_size=3)
+    # (no 0: a vanishing sum as `s` or a mass makes everything downstream singular; C18 covers pools)
+    return st.lists(st.sampled_from(["1", "-1", "2", "1/2", "-1/2", "3"]), min_size=1, max_size=3)
 
 
 def beta_of(p4_tree):
@@ -789,21 +817,36 @@ def beta_of(p4_tree):
 
 RETURN_ALIASES = {"nonnum": "scalar"}
 # scalar arguments may also be event-wise library expressions (InvariantMass(p)**2 as `s`)
-CROSS_KIND = {"scalar": ("ev",), "nonnum": ("ev",)}
+CROSS_KIND = {"scalar": ("ev",), "nonnum": ("ev",), "cscalar": ("ev",)}
 
 
 def _providers(kind: str) -> tuple[list[str], list[str]]:
+    """(classes whose value has this kind, classes of a compatible other kind that are mixed in
+    with low weight)"""
     want = RETURN_ALIASES.get(kind, kind)
     main, cross = [], []
     for name, rec in recipes().items():
         returns = {v[2] for v in rec.variants} if rec.source == "custom" else {rec.returns}
         if rec.source == "generic":
             continue  # unknown classes are only generated at top level
-        if want in returns:
+        if want in returns or (want == "scalar" and name in POLYNOMIAL):
+            main.append(name)
+        elif want == "cscalar" and "scalar" in returns:
             main.append(name)
         elif any(k in returns for k in CROSS_KIND.get(kind, ())):
             cross.append(name)
     return main, cross
+
+
+def _returns_for(name: str, want: str) -> str | None:
+    """The ``returns`` argument of `instance` that makes class `name` deliver kind `want`."""
+    rec = recipes()[name]
+    if rec.source == "custom":
+        available = {v[2] for v in rec.variants}
+        return want if want in available else ("scalar" if "scalar" in available else None)
+    if name in POLYNOMIAL:
+        return want  # "scalar": real arguments; "cscalar": complex arguments allowed
+    return None
 
 
 def _nested(kind: str, depth: int):
@@ -817,7 +860,7 @@ def _nested(kind: str, depth: int):
     for n in main:
         # classes whose unfolded form is large (BoostMatrix: 660 nodes) are nested less often
         weight = 1 if sizes.get(n, (0,))[0] > 300 else 3  # noqa: PLR2004  (own size, arguments excluded)
-        options += [instance(n, depth, returns=want)] * weight
+        options += [instance(n, depth, returns=_returns_for(n, want))] * weight
     if not options:
         return None
     strat = st.one_of(*options)
@@ -877,7 +920,10 @@ def instance(name: str, depth: int, returns: str | None = None):
     extra = _extra_strategy(name)
     if extra is None:
         return st.nothing()
-    arg_strats = [of_kind(k, _arg_depth(name, i, depth), max(2, len(rec.kinds))) for i, k in enumerate(rec.kinds)]
+    kinds = rec.kinds
+    if name in POLYNOMIAL and returns == "scalar":
+        kinds = tuple("scalar" if k == "cscalar" else k for k in kinds)
+    arg_strats = [of_kind(k, _arg_depth(name, i, depth), max(2, len(kinds))) for i, k in enumerate(kinds)]
     return st.tuples(st.tuples(*arg_strats), extra).map(lambda t: ["cls", name, list(t[0]), t[1]])
 
 
@@ -894,7 +940,18 @@ def instances(max_depth: int = 3, max_size: int | None = 2500):
     strat = st.one_of(*[instance(n, max_depth) for n in names])
     if max_size is None:
         return strat
-    return strat.filter(lambda tree: estimated_size(tree) <= max_size)
+
+    # not `strat.filter(...)`: when a filter fails repeatedly Hypothesis formats the repr of the
+    # whole strategy graph into its message (gigabytes here); `assume` in a composite does not
+    @st.composite
+    def bounded(draw):
+        from hypothesis import assume  # noqa: PLC0415
+
+        tree = draw(strat)
+        assume(estimated_size(tree) <= max_size)
+        return tree
+
+    return bounded()
 
 
 # --------------------------------------------------------------------------- size model
@@ -965,7 +1022,7 @@ def estimated_size(tree) -> int:
 
 # --------------------------------------------------------------------------- inventory
 _MINIMAL_LEAF = {
-    "scalar": ["sym", "x"], "nonnum": ["sym", "x"], "L": ["int", 1], "p4": ["arr", "p0"], "arrsym": ["arr", "p0"],
+    "scalar": ["sym", "x"], "cscalar": ["sym", "x"], "nonnum": ["sym", "x"], "L": ["int", 1], "p4": ["arr", "p0"], "arrsym": ["arr", "p0"],
     "ev": ["sym", "e1"], "beta": ["sym", "b1"], "lo": ["num", "0"], "hi": ["num", "1"],
     "v3": ["cls", "ThreeMomentum", [["arr", "p0"]], {}],
     "v3sq": ["pow", ["cls", "ThreeMomentum", [["arr", "p0"]], {}], 2],
